@@ -385,3 +385,14 @@ PROPS['C13']['explanation'] = PROPS['C13']['explanation'].replace('E2: the same 
     'SED.interpolate_variable: at an SED wavelength that is one of the filter wavelengths -- in whatever order the filters are given -- the value is the flux of that wavelength interpolated linearly '
     'in aperture to THAT filter\'s aperture (0.999 a_max beyond the table), refusal below the smallest aperture, the only row for a single-aperture SED. E2: the same natively.')
 PROPS['C17']['assumptions'] = [x.replace('(interp: interpolate_variable; smallest+largest; all; one figure per fit; per-file packages; files written)', '(interp -- whose helper interpolate_variable is under contract --, smallest+largest, all, one figure per fit, per-file packages, files written)') for x in PROPS['C17']['assumptions']]
+
+
+# ---- C08: the chain of contracts the planted-model recovery composes ------------------------------------------
+PROPS['C08']['e1'] = [CV1, CV2, FLT + 'rebin', MOD + 'fit', FR + 'linear_regression', FR + 'optimal_scaling', FR + 'chi_squared', SRC + 'get_log_fluxes', EXTN + 'get_av',
+                      FI + 'sort', FI + 'keep', FI + 'filter_table', 'sedfitter.write_parameters.write_parameters', 'sedfitter.fit.fit', FINIT]
+PROPS['C08']['assumptions'] = COMMON + [T_LOOP, T_EVENT, D_ARGSORT, D_ARGMIN, D_TABLE, D_PICKLE, D_FITS, L_WCS] + A_CONV + [
+    'C08 itself (a planted model comes back first, with its A_V, scale and own parameter row) is the COMPOSITION of the contracts listed: each link is proved here again; that the links compose through '
+    'real files, text and floating point to an exact recovery is decided by the bounded end-to-end run (planted models incl. mixed wavelength grids)']
+PROPS['C08']['explanation'] = ('E1: every link of the chain convolve_model_dir (both formats) -> Filter.rebin -> Models.fit (constrained optimum, chi^2) -> FitInfo.sort (ranking) -> keep -> fit() (one record per '
+                               'source) -> filter_table -> write_parameters (which value is written where) is verified again under this property, so a change that breaks a link fails here too. '
+                               'E2: planted (model, A_V, scale) recovered end-to-end through real files, both formats, 1/3 apertures, permuted tables, mixed wavelength grids.')
